@@ -365,6 +365,17 @@ def run(shard, ctx):
             sub.check("poison: modifying a returned list never changes what any later call returns", not bad,
                       {"poisoned_result_of": label(spec), "result_was": snap, "containers_mutated": n, "answers_changed": len(bad)},
                       None, ex, mechanism="poisoned:%s.%s" % (spec["m"], spec["f"]))
+            # the same call again (now answered from warm memo tables): poison that result as well
+            try:
+                r2, args2 = evaluate(spec, mods)
+                n2 = poison(r2, ids_of(args2, set()))
+                got = ask(Q, mods)
+                bad2, ex2 = diff_answers(ref, got, Q)
+                sub.check("poison: modifying a returned list never changes what any later call returns", not bad2 or bool(bad),
+                          {"poisoned_second_result_of": label(spec), "containers_mutated": n2, "answers_changed": len(bad2)},
+                          None, ex2, mechanism="poisoned-warm:%s.%s" % (spec["m"], spec["f"]))
+            except Exception:
+                pass
             sub.case(("poison", label(spec)))
             if i == mine[0]:
                 sub.sample({"poisoned_result_of": label(spec), "result_was": snap, "containers_mutated": n, "answers_changed": len(bad)})
